@@ -10,9 +10,11 @@ import (
 	tmproto "github.com/cometbft/cometbft/proto/tendermint/types"
 	"github.com/cosmos/cosmos-sdk/codec"
 	codectypes "github.com/cosmos/cosmos-sdk/codec/types"
+	"github.com/cosmos/cosmos-sdk/std"
 	"github.com/cosmos/cosmos-sdk/store"
 	storetypes "github.com/cosmos/cosmos-sdk/store/types"
 	sdk "github.com/cosmos/cosmos-sdk/types"
+	authtypes "github.com/cosmos/cosmos-sdk/x/auth/types"
 	paramtypes "github.com/cosmos/cosmos-sdk/x/params/types"
 )
 
@@ -256,11 +258,22 @@ func NewEnv(kv []string, transient []string) *Env {
 
 var nativeCodec codec.BinaryCodec
 
+var extraIfaces []func(codectypes.InterfaceRegistry)
+
+// RegisterInterfaces lets a harness add its module's interface registrations to the native codec (before first use).
+func RegisterInterfaces(f func(codectypes.InterfaceRegistry)) { extraIfaces = append(extraIfaces, f) }
+
 // Codec returns the binary codec: natively the real protobuf codec; under the executor a typed-blob codec
 // (Marshal wraps the message, Unmarshal of a blob of the same type returns it).
 func Codec() codec.BinaryCodec {
 	if nativeCodec == nil {
-		nativeCodec = codec.NewProtoCodec(codectypes.NewInterfaceRegistry())
+		reg := codectypes.NewInterfaceRegistry()
+		std.RegisterInterfaces(reg)
+		authtypes.RegisterInterfaces(reg)
+		for _, f := range extraIfaces {
+			f(reg)
+		}
+		nativeCodec = codec.NewProtoCodec(reg)
 	}
 	return nativeCodec
 }
